@@ -361,14 +361,10 @@ def share_placement(peers, readonly_peers, shares, peers_to_shares):
         else:
             servermap[peer] = set(servermap[peer]) - used_shares
             if servermap[peer] == set():
+                # all of this peer's shares are already accounted for by
+                # the read-only servers: it has no existing allocation worth
+                # preserving, but it stays a candidate for new shares.
                 servermap.pop(peer, None)
-                # allmydata.test.test_upload.EncodingParameters.test_exception_messages_during_server_selection
-                # allmydata.test.test_upload.EncodingParameters.test_problem_layout_comment_52
-                # both ^^ trigger a "keyerror" here .. just ignoring is right? (fixes the tests, but ...)
-                try:
-                    new_peers.remove(peer)
-                except KeyError:
-                    pass
 
     existing_mappings = _calculate_mappings(new_peers, new_shares, servermap)
     existing_peers, existing_shares = _extract_ids(existing_mappings)
